@@ -142,19 +142,22 @@ def parseHexDigits : Bytes → Nat → Option Nat
     | some v => parseHexDigits bs (acc * 16 + v)
     | none => none
 
+/-- optional sign of strconv.ParseInt: (negative?, rest). -/
+def splitSign : Bytes → Bool × Bytes
+  | 43 :: r => (false, r)
+  | 45 :: r => (true, r)
+  | r => (false, r)
+
 /-- strconv.ParseInt(s, base, bits) for base 10 or 16 given explicitly: optional sign, then
 digits of the base only (no underscores, no prefix); `none` = syntax or range error. -/
 def parseInt (base : Nat) (bits : Nat) (s : Bytes) : Option Int :=
-  let (neg, body) := match s with
-    | 43 :: r => (false, r)
-    | 45 :: r => (true, r)
-    | r => (false, r)
-  if body.isEmpty then none else
-  let mag := if base == 16 then parseHexDigits body 0 else parseDigits body 0
+  let p := splitSign s
+  if p.2.isEmpty then none else
+  let mag := if base == 16 then parseHexDigits p.2 0 else parseDigits p.2 0
   match mag with
   | none => none
   | some v =>
-    if neg then (if v ≤ 2 ^ (bits - 1) then some (-(v : Int)) else none)
+    if p.1 then (if v ≤ 2 ^ (bits - 1) then some (-(v : Int)) else none)
     else (if v < 2 ^ (bits - 1) then some (v : Int) else none)
 
 /-- two's complement wrap to a signed 64-bit value. -/
